@@ -382,8 +382,8 @@ def check_shipped(ctx, case):
 
 def run(ctx):
     @st.composite
-    def cases(draw):
-        c = draw(lattice.lattices())
+    def cases(draw, spacings=lattice.SPACINGS):
+        c = draw(lattice.lattices(spacings=spacings))
         c["ctor"] = draw(st.sampled_from(["from_origins", "ctor_mask", "ctor_mask", "dict"]))
         ex = draw(st.lists(st.tuples(st.floats(-180, 180, allow_nan=False), st.floats(-90, 90, allow_nan=False)), max_size=5))
         c["extra"] = [hx2(p) for p in ex]
@@ -394,6 +394,13 @@ def run(ctx):
         c.record(case, len(case["cells"]) >= 2, "lattice:" + case["ctor"])
 
     ctx.drive(cases(), ctx.n(40, 500), fn=fn, salt=1)
+
+    # fine lattices (0.001 .. 0.0001 deg: cells of 10-100 m, up to six orders of magnitude below their coordinates)
+    def fn_fine(c, case):
+        check_case(c, case)
+        c.record(case, len(case["cells"]) >= 2, "lattice:fine:" + case["ctor"])
+
+    ctx.drive(cases(spacings=["0.0001", "0.0002", "0.0005", "0.001"]), ctx.n(12, 150), fn=fn_fine, salt=6)
 
     # lattices whose spacing the library has to infer (from_origins(dh=None) takes it from the first two latitudes / longitudes) while
     # the two axes live on very different scales and signs: one axis far from zero (both signs), the other within a degree of zero
